@@ -457,7 +457,12 @@ class HTTPConnectionPool(ConnectionPool, RequestMethods):
         self.num_requests += 1
 
         timeout_obj = self._get_timeout(timeout)
-        timeout_obj.start_connect()
+        if isinstance(timeout, Timeout) and timeout._start_connect is not None:
+            # The clock of this request is already running: a CONNECT tunnel was
+            # established for it, and that time counts towards `total` as well.
+            timeout_obj._start_connect = timeout._start_connect
+        else:
+            timeout_obj.start_connect()
         conn.timeout = Timeout.resolve_default_timeout(timeout_obj.connect_timeout)
 
         try:
@@ -771,6 +776,7 @@ class HTTPConnectionPool(ConnectionPool, RequestMethods):
 
             # Is this a closed/new connection that requires CONNECT tunnelling?
             if self.proxy is not None and http_tunnel_required and conn.is_closed:
+                timeout_obj.start_connect()
                 try:
                     self._prepare_proxy(conn)
                 except (BaseSSLError, OSError, SocketTimeout) as e:
